@@ -2,6 +2,7 @@ import TonicModel.Model.Reflection
 import TonicModel.Spec.Reflection
 import TonicModel.Lemmas.Reflection
 import TonicModel.Lemmas.ReflectionWire
+import TonicModel.Lemmas.ReflectionBuild
 /-
 C19 — Reflection resolves every registered symbol and file, and nothing else.
 Property theorems only; helper lemmas live in `Lemmas/Reflection`.
@@ -24,11 +25,49 @@ namespace C19
 open Refl Reflection Spec.Reflection
 
 /-- The service builds whenever every registered byte string decodes and every name the indexer
-reads is present: no other input can make `build_v1`/`build_v1alpha` fail. -/
+reads is present: no other input can make `build_v1`/`build_v1alpha` fail.  (One direction only:
+the converse is false, see `C19_build_iff` for the exact condition and
+`C19_build_succeeds_converse_fails`.) -/
 theorem C19_build_succeeds (c : Config) (hd : c.decodable = true)
     (hw : ∀ f ∈ c.files, File.wellNamed f = true) : ∃ st, build c = .ok st := by
   rw [build_eq, if_pos hd]
   exact addFiles_ok _ _ (fun f hf => hw f (mem_procFiles.mp hf))
+
+/-- **When exactly the service builds.**  `build_v1`/`build_v1alpha` succeed iff every registered
+byte string decodes and every registered file that is the FIRST of its file name in the order the
+builder examines them (`served c.procFiles`: decoded registrations before encoded ones, each in
+call order, the own descriptor last) has all the names the indexer reads.  A file whose file name
+is already taken is skipped (`continue`) and never examined, so missing names in it do not matter. -/
+theorem C19_build_iff (c : Config) :
+    (∃ st, build c = .ok st) ↔
+      (c.decodable = true ∧ ∀ f ∈ served c.procFiles, File.wellNamed f = true) :=
+  build_isOk_iff c
+
+private def bn (cs : List Char) : Name := cs.map (fun c => UInt8.ofNat c.toNat)
+
+/-- `a.p`, package `pk`, `message M { f }`, `service S { rpc G }` -/
+def shadowing : File :=
+  { name := some (bn ['a', '.', 'p']), package := some (bn ['p', 'k']), extra := 0
+    messages := .cons (.mk (some (bn ['M'])) .nil [] [some (bn ['f'])] []) .nil
+    enums := [], services := [{ name := some (bn ['S']), methods := [some (bn ['G'])] }] }
+
+/-- the same file name, with a message WITHOUT a name: `process_file` would fail on it -/
+def shadowed : File := { shadowing with messages := .cons (.mk none .nil [] [] []) .nil }
+
+/-- both registered in one set, the well-named one first -/
+def shadowCfg : Config := { regs := [.decoded [shadowing, shadowed]], chosen := none, own := none }
+
+/-- The converse of `C19_build_succeeds` is false: `shadowCfg` decodes and builds although a
+registered file (`shadowed`, behind a file of the same name) lacks a message name — so "builds
+iff nothing is undecodable or unnamed" does not hold; `C19_build_iff` is the exact statement. -/
+theorem C19_build_succeeds_converse_fails :
+    shadowCfg.decodable = true ∧ isOk (build shadowCfg) = true ∧
+    shadowed ∈ shadowCfg.files ∧ File.wellNamed shadowed = false ∧
+    ¬ (∀ c : Config, (∃ st, build c = .ok st) →
+        (c.decodable = true ∧ ∀ f ∈ c.files, File.wellNamed f = true)) := by
+  refine ⟨by decide, by decide, by decide, by decide, fun h => ?_⟩
+  have := (h shadowCfg (isOk_iff.mp (by decide))).2 shadowed (by decide)
+  revert this; decide
 
 /-- Soundness of symbol resolution ("… and nothing else"): whatever file a symbol resolves to is
 a registered file that declares that symbol, and is itself the file served under its name. -/
@@ -188,19 +227,23 @@ theorem C19_services_exactly_declared (c : Config) (st : State) (h : build c = .
     (served_perm (procFiles_perm c) hu).flatMap_right serviceNames⟩
 
 /-- Why the service does not build, when it does not: a registered byte string prost rejects
-(reported as `DecodeError`, before anything else) or a missing name. -/
+(reported as `DecodeError`, before anything else — first conjunct), or a missing name in a
+registered file that is the first of its file name in processing order, i.e. one the builder
+really examines (second conjunct; from `C19_build_iff`, so it names an examined culprit and is
+more than the contrapositive of `C19_build_succeeds`). -/
 theorem C19_build_error_cause (c : Config) (e : Err) (h : build c = .error e) :
     (e = .decode ↔ c.decodable = false) ∧
-    (c.decodable = false ∨ ∃ f ∈ c.files, File.wellNamed f = false) := by
+    (c.decodable = false ∨
+      ∃ f ∈ served c.procFiles, f ∈ c.files ∧ File.wellNamed f = false) := by
   by_cases hd : c.decodable = true
-  · have hnw : ∃ f ∈ c.files, File.wellNamed f = false := by
+  · have hnw : ∃ f ∈ served c.procFiles, f ∈ c.files ∧ File.wellNamed f = false := by
       apply Classical.byContradiction
       intro hno
-      have hw : ∀ f ∈ c.files, File.wellNamed f = true := fun f hf => by
+      have hw : ∀ f ∈ served c.procFiles, File.wellNamed f = true := fun f hf => by
         cases hwf : File.wellNamed f with
         | true => rfl
-        | false => exact absurd ⟨f, hf, hwf⟩ hno
-      obtain ⟨st, hst⟩ := C19_build_succeeds c hd hw
+        | false => exact absurd ⟨f, hf, mem_procFiles.mp (served_subset hf), hwf⟩ hno
+      obtain ⟨st, hst⟩ := (C19_build_iff c).mpr ⟨hd, hw⟩
       rw [h] at hst; cases hst
     refine ⟨⟨fun he => ?_, fun hf => by rw [hd] at hf; cases hf⟩, Or.inr hnw⟩
     subst he
@@ -269,17 +312,16 @@ theorem C19_own_descriptor_conservative (c : Config) (o : List File) (st0 st1 : 
   · intro nm hno
     simp only [respond, addFiles_files_outside b1 hno]
 
-/-- Hence the two versions agree with each other outside their own descriptors. -/
+/-- Hence the two versions agree with each other outside their own descriptors — for every
+configuration both versions build, with no further condition on the registered files (a service
+that builds with an own descriptor builds without it: `Refl.build_without_own`). -/
 theorem C19_versions_agree (c : Config) (o1 o1a : List File) (s1 s1a : State)
-    (hw : ∀ f ∈ ({ c with own := none } : Config).files, File.wellNamed f = true)
     (h1 : build { c with own := some o1 } = .ok s1) (h1a : build { c with own := some o1a } = .ok s1a) :
     (∀ n, (∀ g ∈ o1, ¬ Declares g n) → (∀ g ∈ o1a, ¬ Declares g n) →
       respond s1 (.fileContainingSymbol n) = respond s1a (.fileContainingSymbol n)) ∧
     (∀ nm, (∀ g ∈ o1, g.name ≠ some nm) → (∀ g ∈ o1a, g.name ≠ some nm) →
       respond s1 (.fileByFilename nm) = respond s1a (.fileByFilename nm)) := by
-  have hd : ({ c with own := none } : Config).decodable = true := by
-    rw [← decodable_with_own c o1]; exact (build_ok h1).1
-  obtain ⟨s0, h0⟩ := C19_build_succeeds { c with own := none } hd hw
+  obtain ⟨s0, h0⟩ := build_without_own c o1 s1 h1
   obtain ⟨a1, a2⟩ := C19_own_descriptor_conservative c o1 s0 s1 h0 h1
   obtain ⟨b1, b2⟩ := C19_own_descriptor_conservative c o1a s0 s1a h0 h1a
   exact ⟨fun n x y => (a1 n x).trans (b1 n y).symm, fun nm x y => (a2 nm x).trans (b2 nm y).symm⟩
@@ -328,13 +370,10 @@ def OutsideOwn (chosen : Option (List Name)) (o1 o1a : List File) : Req → Prop
 is answered alike — as the code has them — and symbol / file look-ups and the chosen service list
 are the same answers). -/
 theorem C19_versions_agree_every_request (c : Config) (o1 o1a : List File) (s1 s1a : State)
-    (hw : ∀ f ∈ ({ c with own := none } : Config).files, File.wellNamed f = true)
     (h1 : build { c with own := some o1 } = .ok s1) (h1a : build { c with own := some o1a } = .ok s1a)
     (r : Req) (hr : OutsideOwn c.chosen o1 o1a r) : respond s1 r = respond s1a r := by
-  have hd : ({ c with own := none } : Config).decodable = true := by
-    rw [← decodable_with_own c o1]; exact (build_ok h1).1
-  obtain ⟨s0, h0⟩ := C19_build_succeeds { c with own := none } hd hw
-  obtain ⟨a1, a2⟩ := C19_versions_agree c o1 o1a s1 s1a hw h1 h1a
+  obtain ⟨s0, h0⟩ := build_without_own c o1 s1 h1
+  obtain ⟨a1, a2⟩ := C19_versions_agree c o1 o1a s1 s1a h1 h1a
   cases r with
   | none => rfl
   | fileContainingExtension t k => rfl
@@ -349,15 +388,12 @@ theorem C19_versions_agree_every_request (c : Config) (o1 o1a : List File) (s1 s
 /-- ListServices in general: the two versions list a common part (what the service lists
 without any own descriptor) followed by services that their own descriptor declares. -/
 theorem C19_versions_agree_services (c : Config) (o1 o1a : List File) (s1 s1a : State)
-    (hw : ∀ f ∈ ({ c with own := none } : Config).files, File.wellNamed f = true)
     (h1 : build { c with own := some o1 } = .ok s1) (h1a : build { c with own := some o1a } = .ok s1a)
     (t : Name) :
     ∃ base x1 x1a, respond s1 (.listServices t) = .ok (.services (base ++ x1)) ∧
       respond s1a (.listServices t) = .ok (.services (base ++ x1a)) ∧
       (∀ n ∈ x1, ∃ g ∈ o1, DeclaresService g n) ∧ (∀ n ∈ x1a, ∃ g ∈ o1a, DeclaresService g n) := by
-  have hd : ({ c with own := none } : Config).decodable = true := by
-    rw [← decodable_with_own c o1]; exact (build_ok h1).1
-  obtain ⟨s0, h0⟩ := C19_build_succeeds { c with own := none } hd hw
+  obtain ⟨s0, h0⟩ := build_without_own c o1 s1 h1
   obtain ⟨x, hx, -, hxd⟩ := C19_own_descriptor_conservative_services c o1 s0 s1 h0 h1
   obtain ⟨y, hy, -, hyd⟩ := C19_own_descriptor_conservative_services c o1a s0 s1a h0 h1a
   exact ⟨s0.serviceNames, x, y, by simp only [respond, hx], by simp only [respond, hy], hxd, hyd⟩
@@ -365,14 +401,13 @@ theorem C19_versions_agree_services (c : Config) (o1 o1a : List File) (s1 s1a : 
 /-- Whole calls: a request stream that stays outside the own descriptors gets the same answers,
 and the same final status, from both versions. -/
 theorem C19_versions_agree_streams (c : Config) (o1 o1a : List File) (s1 s1a : State)
-    (hw : ∀ f ∈ ({ c with own := none } : Config).files, File.wellNamed f = true)
     (h1 : build { c with own := some o1 } = .ok s1) (h1a : build { c with own := some o1a } = .ok s1a)
     (reqs : List Request) (hr : ∀ r ∈ reqs, OutsideOwn c.chosen o1 o1a r.messageRequest) :
     runStream s1 reqs = runStream s1a reqs := by
   induction reqs with
   | nil => rfl
   | cons r rs ih =>
-    have e := C19_versions_agree_every_request c o1 o1a s1 s1a hw h1 h1a r.messageRequest
+    have e := C19_versions_agree_every_request c o1 o1a s1 s1a h1 h1a r.messageRequest
       (hr r List.mem_cons_self)
     simp only [runStream, e, ih (fun r' h' => hr r' (List.mem_cons_of_mem _ h'))]
 
@@ -574,6 +609,14 @@ example : (match build exCfg with
     | .error _ => false) = true := by decide
 -- `exFile` is contested, `exFile'` (registered twice, identically) is too; an uncontested file:
 example : Unconflicted [exFile, exFile] exFile := by decide
+-- … and the hypotheses `Unconflicted c.files f` (`C19_symbol_complete`) resp. `∀ f ∈ c.files, …`
+-- (`C19_services_exactly_declared`) on a BUILT configuration: an identical duplicate registration,
+-- an encoded set and an own descriptor; every registered file is uncontested, a field name is declared
+private def exCfgU : Config :=
+  { regs := [.decoded [exFile, exFile], .encoded (some [exFile''])], chosen := none,
+    own := some [{ exFile'' with name := some (b ['r', '1']), package := some (b ['r', '1']) }] }
+example : isOk (build exCfgU) = true ∧ (∀ f ∈ exCfgU.files, Unconflicted exCfgU.files f)
+    ∧ declares exFile (b ['p', 'k', '.', 'O', 'u', '.', 'I', 'n', '.', 'f']) = true := by decide
 -- a skeleton descriptor of depth 2: the hypotheses of `C19_answer_bytes_decode` hold
 example : exFile.extra = 0 ∧ Spec.ReflWire.MsgList.depth exFile.messages ≤ 100 := by decide
 example : ¬ Unconflicted exCfg.files exFile := by decide
@@ -584,6 +627,11 @@ example : ¬ Unconflicted exCfg.files exFile := by decide
 -- extension request
 private def exCfgOwn (o : File) : Config := { regs := [.decoded [exFile'']], chosen := none, own := some [o] }
 example : isOk (build (exCfgOwn exFile)) = true ∧ isOk (build (exCfgOwn exFile')) = true := by decide
+-- the versions-agree family also covers configurations with an ill-named file shadowed by an
+-- earlier file of the same name (both versions build; the former side condition excluded them)
+example : isOk (build { shadowCfg with own := some [exFile''] }) = true ∧
+    isOk (build { shadowCfg with own := some [exFile] }) = true ∧
+    ¬ (∀ f ∈ ({ shadowCfg with own := none } : Config).files, File.wellNamed f = true) := by decide
 example : OutsideOwn none [exFile] [exFile'] (.fileContainingSymbol (b ['z', 'z', '.', 'Q'])) :=
   ⟨fun g hg hd => by
       have : g = exFile := by simpa using hg
